@@ -133,6 +133,24 @@ def one(ctx, rng, xr, utils):
         (rec.ok("window_one_identity", key) if ident else rec.bad("window_one_identity", key, {"dir": x.dir.values}, "window-one-not-identity"))
     if ok and inside:
         rec.ok("smooth", key, sample={"windows": [fw, dw], "stored": stored, "dir": x.dir.values[:4]})
+        if rng.random() < 0.3:
+            # same object, same windows, after an in-place edit of the input (and of the first result): the second
+            # call must smooth what the object holds now
+            try:
+                r.values[...] = -1.0
+            except Exception:
+                pass
+            x.values[...] = (x.values * 0.5 + rng.random(x.shape)).astype(x.dtype)
+            E2 = x.values.astype("float64")
+            ref2 = ref_smooth(E2, x.dir.values.astype("float64"), fw, dw, full)[0]
+            try:
+                r2 = call(fw, dw)
+                r2 = r2.compute() if hasattr(r2, "compute") else r2
+                ok2, worst2 = close(r2.values.astype("float64"), ref2, rt, atol=rt * max(np.abs(E2).max(), 1e-300))
+                (rec.ok("smooth_after_edit", "%s|fw=%d|dw=%d" % (via, fw, dw)) if ok2 else
+                 rec.bad("smooth_after_edit", "%s|fw=%d|dw=%d" % (via, fw, dw), {"windows": (fw, dw), "via": via, "worst_over_tol": worst2}, "smooth-returns-result-of-earlier-contents"))
+            except Exception as e:
+                rec.bad("smooth_after_edit", via, {"raised": repr(e)[:300]}, "smooth-raises")
     else:
         mech = None
         if stored != "sorted":
